@@ -18,6 +18,8 @@ from .. import common as C
 from . import _an as A
 
 PROP = "C05"
+# obligations of the properties this one is downstream of are obligations of this check too (vk.runner.collect_obligations)
+UPSTREAM = ["C01"]
 GEN_REGIONS = ["CoreKernels", "Analysis", "Utils", "CudaKernels", "LpsdCore", "NumpyKernels"]
 THEOREMS = {
     # the request arithmetic of compute_single_bin as translated each run IS the model (segmentation) / the requested frequency (omega)
